@@ -122,7 +122,7 @@ Qed.
 Lemma FesRel_add_l t e f f' : inert e = true -> FesRel f f' -> WF f -> FesRel (fes_add t e f) f'.
 Proof.
   intros Hi [a b] [_ s1]. unfold fes_add. destruct (t =? f_tcur f); constructor; cbn [f_zero f_rest]; try assumption.
-  - rewrite strip_app. cbn [strip filter]. unfold keep at 2. cbn [snd]. rewrite Hi. cbn [negb]. rewrite app_nil_r. exact a.
+  - rewrite strip_app. cbn [strip filter]. unfold keep at 1. cbn [snd]. rewrite Hi. cbn [negb]. rewrite app_nil_r. exact a.
   - rewrite strip_ins by assumption. unfold keep. cbn [snd]. rewrite Hi. exact b.
 Qed.
 
